@@ -364,12 +364,19 @@ impl Scenario for Svc {
     fn ctl_actions(&self, w: &World, x: &X) -> Vec<u8> {
         match w.callers.iter().position(|c| c.phase == Phase::NotArrived) {
             Some(c) if c < self.callers && x.ready[c].is_none() => if self.siblings { vec![0, 1] } else { vec![0] },
+            // Ctl(2): a caller that was told Ready asks again on the same handle before it calls
+            // (a select! loop, a load balancer): the answer is judged like the first one
+            Some(c) if c < self.callers => vec![2],
             _ => vec![],
         }
     }
     fn apply_ctl(&self, w: &mut World, x: &mut X, ctl: u8) {
         let c = w.callers.iter().position(|c| c.phase == Phase::NotArrived).unwrap();
-        let mut h = if ctl == 0 { x.svc.clone_h() } else { x.sibling.clone_h() };
+        let (ctl, mut h) = if ctl == 2 {
+            x.ready[c].take().expect("re-check without a ready handle")
+        } else {
+            (ctl, if ctl == 0 { x.svc.clone_h() } else { x.sibling.clone_h() })
+        };
         x.last_checked = ctl;
         let waker = futures::task::noop_waker();
         let mut cx = std::task::Context::from_waker(&waker);
@@ -442,8 +449,9 @@ impl Scenario for Svc {
         if !(1..=3).contains(&lim) {
             out.push(Viol::new("limit_out_of_bounds", site, format!("limit {lim} outside [1,3]")));
         }
-        if let Action::Ctl(which) = a {
-            // the caller that just checked readiness
+        if let Action::Ctl(_) = a {
+            // the caller that just checked readiness (on the service x.last_checked)
+            let which = &x.last_checked;
             if let Some(c) = w.callers.iter().position(|c| c.phase == Phase::NotArrived) {
                 let ans = w.callers[c].user;
                 let live = live_of(w, *which);
